@@ -93,8 +93,10 @@ MANIFEST = dict(
          'has a theorem from the generated object to the premise; for the other views C11\'s obligations are necessary conditions '
          'tied to C11\'s theorems about assigned values, the step to "values read from this file" (every reference resolves into its '
          'table, values the reader returns fit the writer\'s formats) is searched only; C11\'s translators are used unchanged, so a '
-         'refactoring they cannot classify alarms here too. Texture names that differ only in case are outside the inputs (the '
-         'texinfo writer de-duplicates names case-insensitively, as the compilers do). Hidden mutations: '
+         'refactoring they cannot classify alarms here too. Texture names that differ only in case (in the string table only / also named by texdata) are inputs for the histories that do '
+         'not reach the texinfo writer (bsp.textures alone or with views outside texinfo\'s reach: both spellings are kept); for histories '
+         'that reach it they stay outside (the texinfo writer de-duplicates names case-insensitively, as the compilers do: texinfo.mat '
+         'takes another spelling of the same material). Hidden mutations: '
          'the translator lists the (reader, view) pairs by a taint analysis (may-analysis of direct attribute/item stores and '
          'mutating method calls, followed through BSP methods; changes made inside other classes\' methods are not seen) and '
          'the check pins the list; for (bmodels, ents) the graph hypotheses of the theorem and "nothing that can raise follows '
@@ -480,7 +482,7 @@ def run_trial(subj: Subject, cycles: list[list[str]], work: Path, own: dict[str,
 # ================================================================================================ inputs
 DEFAULT_OPTS = dict(layout='v20', compress=(), origin_vertex=True, faceids='full', water=True, overlay_aux=True, vis=True,
                     n_extra=1, extra_game=False, compress_game=(), fractional_bounds=False, detail_shapes=False, hdr=True, bad=(),
-                    aux='normal', adv=True, sprp='layout', empty=False, odd_lzma=False)
+                    aux='normal', adv=True, sprp='layout', empty=False, odd_lzma=False, big=(), case_names='')
 VARIANTS: list[dict] = (
     [dict(layout=l) for l in c10_util.LAYOUTS]
     + [dict(compress=('ENTITIES', 'PLANES', 'LEAFS', 'LIGHTING', 'FACES', 'TEXDATA_STRING_DATA')),
@@ -503,6 +505,14 @@ VARIANTS: list[dict] = (
        dict(odd_lzma=True, compress=('ENTITIES', 'TEXDATA_STRING_DATA', 'FACES', 'FACEIDS', 'LIGHTING', 'PLANES'),
             compress_game=('sprp', 'dprp')),
        dict(odd_lzma=True, layout='l4d2', compress=('LEAFS', 'OVERLAYS', 'MODELS', 'WORLDLIGHTS'), compress_game=('dprp',))]
+    # round 6 (appended: the seeds of the inputs above are unchanged).  Compressed lumps and a compressed game lump of 5 KB, 70 KB and
+    # 200 KB whose content repeats at distances 4 KB, 64 KB and further back than every power of two below the length (a blob whose
+    # header names a smaller dictionary than the compressor used cannot be read back), compressed with CPython lzma, not with
+    # srctools.  Texture names that differ from another table name only in letter case (in the table only / also named by texdata).
+    + [dict(big=(5200, 70000, 200000, 340), compress=('LIGHTING', 'LIGHTING_HDR', 'VERTEXES'), compress_game=('xtra',), extra_game=True),
+       dict(big=(70000, 200000, 5200, 5500), layout='l4d2', compress=('LIGHTING', 'LIGHTING_HDR', 'VERTEXES', 'ENTITIES'),
+            compress_game=('xtra', 'sprp'), extra_game=True),
+       dict(case_names='table'), dict(case_names='texdata'), dict(case_names='table', layout='chaos', compress=('TEXDATA_STRING_DATA',))]
 )
 # malformed lumps: looking at the view raises (at once, or after other views were parsed), the caller goes on and saves
 BAD_VARIANTS: list[dict] = [
@@ -565,7 +575,7 @@ def input_tag(opts: dict, fails) -> str:
             need[k] = v
     if not need and not fails({}):
         need = dict(opts)
-    return ','.join(f'{k}={"+".join(v) if isinstance(v, tuple) else v}' for k, v in sorted(need.items())) or 'any'
+    return ','.join(f'{k}={"+".join(map(str, v)) if isinstance(v, tuple) else v}' for k, v in sorted(need.items())) or 'any'
 
 
 # ================================================================================================ tracing / correspondence
@@ -1091,6 +1101,82 @@ def memoise_lzma() -> None:
         B.compress_lzma = compress_lzma
 
 
+def lzma_header_obligation(ck: Ck) -> None:
+    """Round 6: the header binformat.compress_lzma writes must name the parameters it handed to the compressor (a reader allocates
+    the dictionary the header names; matches further back than that are corrupt data).  Read from the function's AST, fail closed:
+    one lzma.compress(<arg>, lzma.FORMAT_RAW, filters=[F]) whose result C is returned as <Struct>.pack(b'LZMA', len(<arg>), len(C),
+    (F['pb'] * 5 + F['lp']) * 9 + F['lc'], F['dict_size']) + C, with F a module-level dict literal assigned once.  Then the
+    same statement on the running function: header fields of three outputs (long-range content of 5200 and 70000 bytes, empty) against
+    the filter dictionary, and CPython's raw decoder set up FROM THE HEADER gives the data back."""
+    import ast
+    import lzma
+    name = 'lzma_header_names_the_parameters_handed_to_the_compressor'
+    try:
+        import srctools.binformat as F
+        tree = ast.parse(Path(F.__file__).read_text(encoding='utf8'))
+        fn = next(n for n in tree.body if isinstance(n, ast.FunctionDef) and n.name == 'compress_lzma')
+        arg = fn.args.args[0].arg
+        binds: dict[str, list[ast.expr]] = {}
+        for n in ast.walk(fn):
+            if isinstance(n, (ast.Assign, ast.AnnAssign, ast.AugAssign)):
+                for t in (n.targets if isinstance(n, ast.Assign) else [n.target]):
+                    for nm in ast.walk(t):
+                        if isinstance(nm, ast.Name):
+                            binds.setdefault(nm.id, []).append(n.value)
+            elif isinstance(n, (ast.For, ast.While, ast.With, ast.Try, ast.NamedExpr)):
+                raise ValueError(f'{type(n).__name__} statement in compress_lzma')
+
+        def resolve(e: ast.expr) -> ast.expr:
+            while isinstance(e, ast.Name) and e.id in binds:
+                if len(binds[e.id]) != 1:
+                    raise ValueError(f'{e.id} is assigned {len(binds[e.id])} times')
+                e = binds[e.id][0]
+            return e
+        rets = [n for n in ast.walk(fn) if isinstance(n, ast.Return)]
+        if len(rets) != 1 or not isinstance(rets[0].value, ast.BinOp) or not isinstance(rets[0].value.op, ast.Add):
+            raise ValueError('not a single "return header + payload"')
+        head, payload = rets[0].value.left, resolve(rets[0].value.right)
+        if not (isinstance(payload, ast.Call) and ast.unparse(payload.func) == 'lzma.compress' and len(payload.args) == 2
+                and ast.unparse(payload.args[0]) == arg and ast.unparse(payload.args[1]) == 'lzma.FORMAT_RAW'
+                and [k.arg for k in payload.keywords] == ['filters'] and isinstance(payload.keywords[0].value, ast.List)
+                and len(payload.keywords[0].value.elts) == 1 and isinstance(payload.keywords[0].value.elts[0], ast.Name)):
+            raise ValueError('payload is not lzma.compress(<arg>, lzma.FORMAT_RAW, filters=[<name>]): ' + ast.unparse(payload))
+        filt = payload.keywords[0].value.elts[0].id
+        tops = [n for n in ast.walk(tree) if isinstance(n, (ast.Assign, ast.AnnAssign, ast.AugAssign))
+                and any(isinstance(x, ast.Name) and x.id == filt for t in (n.targets if isinstance(n, ast.Assign) else [n.target]) for x in ast.walk(t))]
+        if len(tops) != 1 or tops[0] not in tree.body or not isinstance(tops[0].value, ast.Dict):
+            raise ValueError(f'{filt} is not one module-level dict literal')
+        if not (isinstance(head, ast.Call) and isinstance(head.func, ast.Attribute) and head.func.attr == 'pack' and len(head.args) == 5
+                and not head.keywords):
+            raise ValueError('header is not <Struct>.pack(5 fields)')
+        want = ["b'LZMA'", f'len({arg})', None, f"({filt}['pb'] * 5 + {filt}['lp']) * 9 + {filt}['lc']", f"{filt}['dict_size']"]
+        got = [ast.unparse(resolve(a)) for a in head.args]
+        size_of = head.args[2]
+        if not (isinstance(size_of, ast.Call) and ast.unparse(size_of.func) == 'len' and resolve(size_of.args[0]) is payload):
+            raise ValueError('third header field is not len(<compressed payload>): ' + ast.unparse(size_of))
+        bad = [f'field {i}: {g} (expected {w})' for i, (g, w) in enumerate(zip(got, want)) if w is not None and g != w]
+        if bad:
+            raise ValueError('; '.join(bad))
+        # the running function
+        used = getattr(F, filt)
+        rng = random.Random(6)
+        for data in (c10_util.long_range(rng, 5200), c10_util.long_range(rng, 70000), b''):
+            blob = getattr(F.compress_lzma, '__wrapped__', F.compress_lzma)(data)
+            sig, n, nc, props, dic = struct.unpack_from('<4sIIBI', blob)
+            if (sig, n, nc) != (b'LZMA', len(data), len(blob) - 17):
+                raise ValueError(f'header of a {len(data)}-byte input: {(sig, n, nc)}')
+            if dic != used['dict_size'] or props != (used['pb'] * 5 + used['lp']) * 9 + used['lc']:
+                raise ValueError(f'header of a {len(data)}-byte input names dictionary {dic}, properties {props}; the compressor got {used}')
+            dec = lzma.LZMADecompressor(lzma.FORMAT_RAW, filters=[{'id': lzma.FILTER_LZMA1, 'dict_size': max(dic, 4096), 'lc': props % 9,
+                                                                     'lp': props // 9 % 5, 'pb': props // 45}])
+            if dec.decompress(blob[17:])[:n] != data:
+                raise ValueError(f'a decoder set up from the header does not give the {len(data)} bytes back')
+    except Exception as e:      # noqa: BLE001
+        ck.obligation(name, False, f'{type(e).__name__}: {e}')     # no escalation: the large compressed lumps are default inputs
+        return
+    ck.obligation(name, True, f'compress_lzma: filters=[{filt}], header fields {got}')
+
+
 # ================================================================================================ main
 def run(ck: Ck) -> None:
     ck.rule = ('inputs: tests/test_vec/rot_main.bsp and synthesised consistent BSPs (7 layouts x options: LZMA lumps, '
@@ -1221,6 +1307,7 @@ def run(ck: Ck) -> None:
     tm['translate+build+obligations'] = round(time.time() - t0, 1)
     t0 = time.time()
     codec = codec_stage(ck, ok_f, ok_g) if built else {}
+    lzma_header_obligation(ck)
     tm['codec_premises'] = round(time.time() - t0, 1)
     t0 = time.time()
     # ---------------------------------------------------------------------------- inputs
@@ -1246,7 +1333,7 @@ def run(ck: Ck) -> None:
             what = f'BSP() does not return within {TRIAL_LIMIT_S} s'
         except Exception as e:      # noqa: BLE001
             what = f'BSP() raises {type(e).__name__}: {e}'
-        tagk = ','.join(f'{k}={"+".join(v) if isinstance(v, tuple) else v}' for k, v in sorted(opts.items())) or 'default'
+        tagk = ','.join(f'{k}={"+".join(map(str, v)) if isinstance(v, tuple) else v}' for k, v in sorted(opts.items())) or 'default'
         ck.violation(f'read-fails|input:{tagk}', what, {'input': {'opts': opts, 'seed': seed}, 'cycles': [],
                                                         'how': 'harness.c10_util.synth(random.Random(seed), **opts) -> BSP(file)'})
         return None
@@ -1291,6 +1378,9 @@ def run(ck: Ck) -> None:
         if hangs[0] >= 2:       # two histories that do not return are reported; every further one could cost the limit again
             ck.count('save_roundtrips_skipped_after_hangs')
             return
+        if opts and opts.get('case_names'):
+            # table names that differ only in case are an input only for histories outside the reach of the texinfo writer
+            cycles = [[v for v in c if 'texinfo' not in closure(v)] for c in cycles]
         ck.count('save_roundtrips')
         for accs in cycles:
             ck.hist('views_per_cycle', len(accs))
@@ -1388,6 +1478,16 @@ def run(ck: Ck) -> None:
     attempt(default, dict(layout='v20'), [['water_leaf_info']])
     for k, (opts, s) in enumerate(synth_subjects):
         attempt(s, opts, [[]])
+        if 'case_names' in opts:
+            # table names that differ only in letter case: an input for every history that does not reach the texinfo writer
+            # (which de-duplicates names by casefold, as the compilers do: texinfo.mat takes another spelling; decided in round 4,
+            # narrowed in round 6).  bsp.textures itself, alone and with every view outside texinfo's reach, must keep both spellings
+            safe = [v for v in VIEWS if 'texinfo' not in closure(v)]
+            for cyc in ([['textures']], [safe], [list(reversed(safe))], [['textures'], ['textures']],
+                        [rng.sample(safe, 3) + ['textures']], [['textures'] + rng.sample(safe, 2), ['textures']]):
+                attempt(s, opts, cyc)
+            ck.hist('case_name_histories_views_outside_texinfo', len(safe))
+            continue
         attempt(s, opts, [list(VIEWS)])
         is_layout = set(opts) == {'layout'}
         if is_layout or ck.budget(0, 1):
@@ -1400,6 +1500,8 @@ def run(ck: Ck) -> None:
             singles = rng.sample(VIEWS, 8)
         elif 'sprp' in opts or 'empty' in opts:     # the game-lump views and what their readers reach
             singles = ['props', 'detail_props', 'overlays', 'cubemaps']
+        elif 'big' in opts:             # the view of the large compressed lump, the game-lump views beside the large game lump
+            singles = ['vertexes', 'props', 'detail_props', 'ents']
         elif 'aux' in opts:     # the views that own side lumps (and faces: FACEIDS), each alone
             singles = [v for v in VIEWS if v == 'faces' or sum(1 for w in own.values() if w == v) > 1]
         else:
@@ -1488,6 +1590,11 @@ def run(ck: Ck) -> None:
             attempt(s, opts, [rng.sample(VIEWS, rng.choice([1, 2, 3, 5, 9, 14, 21])) for _ in range(rng.choice([1, 1, 2, 3]))])
             if fresh_found():
                 break
+    if any(f['kind'].split(':')[0] in ('reread-fails', 'raw-changed', 'view-content-changed', 'lump-compressed-flag', 'game-lump-directory')
+           and (f['input'].get('opts', {}).get('compress') or f['input'].get('opts', {}).get('compress_game')) for f in fresh_found().values()):
+        # a saved file whose compressed lumps cannot be read back / read back different is what a header that does not name the
+        # compressor's parameters looks like
+        ck.explain('lzma_header_names_the_parameters_handed_to_the_compressor')
     if inst.get('shape_ok_bsp_shape') is False and any(f['kind'].split(':')[0] in ('failed-look-changed-lump', 'raw-changed-unparsable',
                                                                                  'cache-not-empty-after-save') for f in fresh_found().values()):
         # outside the shapes the model was validated for (its abstraction of "the reader raises" is not data-exact there):
